@@ -2129,6 +2129,9 @@ func (d *Document) parseBodySubElement(decoder *xml.Decoder, startElement xml.St
 	case "sectPr":
 		// 解析节属性
 		return d.parseSectionProperties(decoder, startElement)
+	case "sdt":
+		// 解析内容控件（目录等）
+		return d.parseSDT(decoder, 0)
 	case "bookmarkStart":
 		// 正文级书签开始
 		bookmark := &BookmarkStart{
